@@ -201,6 +201,10 @@ class PoolGen:
         pc2 = self.pointcoll(d, shape if rng.random() < 0.7 else self.coll_shape())
         if rng.random() < 0.4:
             self.pointcoll(other, self.coll_shape())
+        if rng.random() < 0.15:
+            self.add("emptycoll", [d + 1], tag=f"pointcoll{d}")   # a collection with zero elements
+        if rng.random() < 0.08:
+            self.add("emptycoll", [d + 1, "transf"], tag=f"transfcoll{d}")
 
         P = self.by[f"point{d}"]
         # lines
